@@ -336,6 +336,11 @@ func flushBuf(pos int, obuf []byte, normalizeWord bool, ld *dictionary) tokenID 
 	// escape sequences can occur anywhere in the string, not just the beginning
 	// so always attempt to unescape the word's content.
 	token = html.UnescapeString(token)
+	if normalizeWord {
+		// The runes were lower-cased when they were buffered, but a character
+		// reference can stand for an upper-case letter ("&#80;ermission").
+		token = strings.ToLower(token)
+	}
 
 	clean := normalizeToken(token)
 
